@@ -236,13 +236,33 @@ nni_chunk_dup(nni_chunk *dst, const nni_chunk *src)
 	return (0);
 }
 
+// nni_chunk_owns reports whether data points into the content the chunk
+// holds right now (a caller may append or insert a part of the message
+// itself), and if so at which offset: growing or shifting the chunk moves
+// (or frees) those bytes, so the source has to be found again afterwards.
+static bool
+nni_chunk_owns(const nni_chunk *ch, const void *data, size_t *offp)
+{
+	uintptr_t d = (uintptr_t) data;
+	uintptr_t p = (uintptr_t) ch->ch_ptr;
+
+	if ((data == NULL) || (ch->ch_ptr == NULL) || (d < p) ||
+	    ((d - p) >= ch->ch_len)) {
+		return (false);
+	}
+	*offp = (size_t) (d - p);
+	return (true);
+}
+
 // nni_chunk_append appends the data to the chunk, growing as necessary.
 // If the data pointer is NULL, then the chunk data region is allocated,
 // but uninitialized.
 static int
 nni_chunk_append(nni_chunk *ch, const void *data, size_t len)
 {
-	int rv;
+	int    rv;
+	size_t off  = 0;
+	bool   owns = nni_chunk_owns(ch, data, &off);
 
 	if (len == 0) {
 		return (0);
@@ -255,6 +275,10 @@ nni_chunk_append(nni_chunk *ch, const void *data, size_t len)
 	}
 	if (ch->ch_ptr == NULL) {
 		ch->ch_ptr = ch->ch_buf;
+	}
+	if (owns) {
+		// The content may have moved to a new buffer.
+		data = ch->ch_ptr + off;
 	}
 	if (data != NULL) {
 		memcpy(ch->ch_ptr + ch->ch_len, data, len);
@@ -281,6 +305,8 @@ nni_chunk_insert(nni_chunk *ch, const void *data, size_t len)
 	int    rv;
 	bool   grow = false;
 	size_t needed;
+	size_t off  = 0;
+	bool   owns = nni_chunk_owns(ch, data, &off);
 
 	if (ch->ch_ptr == NULL) {
 		ch->ch_ptr = ch->ch_buf;
@@ -328,6 +354,11 @@ nni_chunk_insert(nni_chunk *ch, const void *data, size_t len)
 	}
 
 	ch->ch_len += len;
+	if (owns) {
+		// The previous content now follows the inserted region,
+		// wherever it was shifted or reallocated to.
+		data = ch->ch_ptr + len + off;
+	}
 	if (data != NULL) {
 		memcpy(ch->ch_ptr, data, len);
 	}
@@ -651,6 +682,12 @@ nni_msg_header_insert(nni_msg *m, const void *data, size_t len)
 	}
 	memmove(((uint8_t *) m->m_header_buf) + len, m->m_header_buf,
 	    m->m_header_len);
+	if (((uintptr_t) data >= (uintptr_t) m->m_header_buf) &&
+	    ((uintptr_t) data <
+	        (uintptr_t) m->m_header_buf + m->m_header_len)) {
+		// The source is a part of this header, which just moved.
+		data = ((const uint8_t *) data) + len;
+	}
 	memcpy(m->m_header_buf, data, len);
 	m->m_header_len += len;
 	return (0);
